@@ -113,7 +113,8 @@ def run(ctx):
     # read of released memory is seen either as garbage or as another request's question.
     for extra in ([], ["-nopoison"]):
         tpf, _ = routerfam.run_mode(ctx, drv, "c10pf" + ("-np" if extra else ""), extra)
-        routerfam.validate(ctx, tpf, only=["Inv_C10_", "Unconsumable"], require_events=200)
+        # (an answer produced for another question means the client's own question was not what went upstream)
+        routerfam.validate(ctx, tpf, only=["Inv_C10_", "Inv_C04_Provenance", "Unconsumable"], require_events=200)
     trace2, _ = routerfam.run_mode(ctx, drv, "c10boot")
     routerfam.validate(ctx, trace2, only=["Inv_C10_", "Unconsumable"], require_events=8)
     bt = binary_boots(ctx, ctx.quick)
